@@ -218,7 +218,7 @@ def c19_readers(S, fmt, ch, rate, rng, nreaders=3):
         S.add(ln)
 
 
-ROUTES_R = ["vio", "fd", "fdk", "path", "emb44", "emb4096", "pipe"]
+ROUTES_R = ["vio", "fd", "fdk", "path", "emb44", "emb4096", "embz44", "embz4096", "pipe"]
 ROUTES_W = ["vio", "fd", "fdk", "path"]
 EMBED_OK = (1, 2, 3, 0x13)      # WAV, AIFF, AU, WAVEX (the library's embedding whitelist is what it is: failures are allowed by the spec)
 
@@ -283,6 +283,13 @@ def c15_workloads(fmt, ch, rate):
     }
     if scen.is_granular(fmt):
         wl["rw"] = (prep, ["open 0 vio rw 1 %d %d %d" % (fmt, ch, rate), "write 0 %s f 3 gen noise 4 0" % T, "seek 0 0 16", "read 0 %s f 5" % T, "seek 0 2 33", "write 0 %s f 2 gen noise 5 0" % T, "close 0"])
+        # read, explicit seek of the write pointer, write, explicit seek of the read pointer, read: a seek that fails once must not displace what follows
+        wl["rw2"] = (prep, ["open 0 vio rw 1 %d %d %d" % (fmt, ch, rate), "seek 0 4 16", "read 0 %s f 6" % T, "seek 0 10 32", "write 0 %s f 4 gen noise 6 0" % T,
+                            "seek 0 20 16", "read 0 %s f 3" % T, "seek 0 %d 32" % N, "write 0 %s f 5 gen noise 7 0" % T, "seek 0 8 0", "read 0 %s f 4" % T, "close 0"])
+    # what the file holds afterwards is read back (judged strictly when no fault fired or the fault was absorbed, sanity only otherwise)
+    for name in list(wl):
+        if name != "r":
+            wl[name] = (wl[name][0], wl[name][1] + ["open 1 vio r 1 %d %d %d" % (ofmt, ch, rate), "read 1 %s f %d" % (T, N + 12), "close 1"])
     return wl
 
 
